@@ -18,7 +18,7 @@ from typing import Optional, List
 import contextlib, string, os, sys, plasTeX, subprocess
 from plasTeX.Tokenizer import Tokenizer, Token, EscapeSequence, Other
 from plasTeX import TeXDocument
-from plasTeX.Base.TeX.Primitives import MathShift
+from plasTeX.Base.TeX.Primitives import MathShift, IfCommand
 from plasTeX import ParameterCommand, Macro
 from plasTeX import glue, muglue, mudimen, dimen, number
 from plasTeX.Logging import getLogger, disableLogging, fileLogging
@@ -559,7 +559,7 @@ class TeX(object):
                 cases[-1].append(t)
                 cases[-1].append(next(iterator))
                 continue
-            elif name.startswith('if'):
+            elif name.startswith('if') and self.isConditional(name):
                 cases[-1].append(t)
                 nesting += 1
             elif name == 'fi':
@@ -591,6 +591,20 @@ class TeX(object):
 
         # Push if-selected tokens back into tokenizer
         self.pushTokens(cases[which])
+
+    def isConditional(self, name):
+        """
+        Does the macro called `name` open a conditional?
+
+        Macros that are known not to be conditionals although their name
+        starts with `if' (\\ifthenelse, \\iflanguage, \\iff) do not.  An
+        unknown name is taken for a conditional of a package we don't know.
+
+        """
+        context = self.ownerDocument.context
+        if name not in context:
+            return True
+        return issubclass(context[name], (IfCommand, plasTeX.NewIf))
 
     def readArgument(self, *args, **kwargs):
         """
